@@ -11,7 +11,7 @@ import (
 	"mime/multipart"
 	"net/http"
 	"net/http/httptest"
-	"net/url"
+	"net/textproto"
 	"reflect"
 	"strconv"
 	"strings"
@@ -88,11 +88,36 @@ func c03PartsField(ps []c03Part) string {
 	return proto.L(items)
 }
 
-func c03MultipartBody(ps []c03Part) ([]byte, string) {
+func c03MultipartBody(ps []c03Part) ([]byte, string) { return c03MultipartBodyAs(ps, false) }
+
+// c03MultipartBodyAs serialises the parts. other=false: as mime/multipart.Writer's WriteField and
+// CreateFormFile do. other=true: as other clients do — a preamble in front of the first boundary and
+// an epilogue behind the last, the parameters of Content-Disposition in the other order, a
+// Content-Type on text fields too, none on files.
+func c03MultipartBodyAs(ps []c03Part, other bool) ([]byte, string) {
 	var buf bytes.Buffer
+	if other {
+		buf.WriteString("This is a multi-part message in MIME format.\r\n")
+	}
 	mw := multipart.NewWriter(&buf)
 	_ = mw.SetBoundary("c03boundaryc03boundaryc03boundary")
+	quote := strings.NewReplacer("\\", "\\\\", `"`, "\\\"")
 	for _, p := range ps {
+		if other {
+			h := textproto.MIMEHeader{}
+			if p.filename == "" {
+				h.Set("Content-Disposition", `form-data; name="`+quote.Replace(p.name)+`"`)
+				h.Set("Content-Type", "text/plain; charset=utf-8")
+			} else {
+				h.Set("Content-Disposition", `form-data; filename="`+quote.Replace(p.filename)+`"; name="`+quote.Replace(p.name)+`"`)
+			}
+			w, err := mw.CreatePart(h)
+			if err != nil {
+				panic(err)
+			}
+			_, _ = w.Write([]byte(p.content))
+			continue
+		}
 		if p.filename == "" {
 			_ = mw.WriteField(p.name, p.content)
 			continue
@@ -104,10 +129,14 @@ func c03MultipartBody(ps []c03Part) ([]byte, string) {
 		_, _ = w.Write([]byte(p.content))
 	}
 	_ = mw.Close()
+	if other {
+		buf.WriteString("This is the epilogue.\r\n")
+	}
 	return buf.Bytes(), mw.FormDataContentType()
 }
 
 type c03FileBuilt struct {
+	method  string // POST, PUT, PATCH or DELETE: chosen per declaration
 	handler http.Handler
 	binder  *middleware.UntypedRequestBinder
 	sbinder *middleware.UntypedRequestBinder
@@ -145,6 +174,8 @@ func c03FileBuild(name, typ string, req bool) *c03FileBuilt {
 	if b, ok := c03FileCache[key]; ok {
 		return b
 	}
+	// form parameters can be declared on every method that can have a body
+	method := []string{"POST", "POST", "PUT", "PATCH", "DELETE"}[c03Sum(name, typ, proto.Bool(req))%5]
 	pj := map[string]interface{}{"name": name, "in": "formData", "type": typ}
 	if typ == "integer" {
 		pj["format"] = "int32"
@@ -164,7 +195,7 @@ func c03FileBuild(name, typ string, req bool) *c03FileBuilt {
 		"basePath": "/",
 		"consumes": []string{"application/json"},
 		"produces": []string{"application/json"},
-		"paths":    map[string]interface{}{"/op": map[string]interface{}{"post": op}},
+		"paths":    map[string]interface{}{"/op": map[string]interface{}{strings.ToLower(method): op}},
 	}
 	raw, _ := json.Marshal(doc)
 	d, err := loads.Analyzed(json.RawMessage(raw), "")
@@ -174,8 +205,8 @@ func c03FileBuild(name, typ string, req bool) *c03FileBuilt {
 	api := untyped.NewAPI(d)
 	api.RegisterConsumer("application/x-www-form-urlencoded", runtime.DiscardConsumer)
 	api.RegisterConsumer("multipart/form-data", runtime.DiscardConsumer)
-	b := &c03FileBuilt{ran: new(bool), got: new([]string), name: name}
-	api.RegisterOperation("post", "/op", runtime.OperationHandlerFunc(func(params interface{}) (interface{}, error) {
+	b := &c03FileBuilt{ran: new(bool), got: new([]string), name: name, method: method}
+	api.RegisterOperation(strings.ToLower(method), "/op", runtime.OperationHandlerFunc(func(params interface{}) (interface{}, error) {
 		*b.ran = true
 		*b.got = []string{"U"}
 		if m, ok := params.(map[string]interface{}); ok {
@@ -187,7 +218,7 @@ func c03FileBuild(name, typ string, req bool) *c03FileBuilt {
 	}))
 	b.handler = middleware.Serve(d, api)
 	var param spec.Parameter
-	for _, p := range d.Analyzer.ParamsFor("POST", "/op") {
+	for _, p := range d.Analyzer.ParamsFor(method, "/op") {
 		param = p
 	}
 	b.binder = middleware.NewUntypedRequestBinder(map[string]spec.Parameter{name: param}, d.Spec(), strfmt.Default)
@@ -259,11 +290,13 @@ func c03ExecFile(in []string) []string {
 		}
 	}
 	b := c03FileBuild(name, typ, in[3] == "1")
+	// how the request is spelled and delivered (c03Wire): drawn from a checksum of the case
+	wire := c03WireOf(c03Sum(in...))
 	var body []byte
 	ctype := ""
 	switch mode {
 	case "multipart":
-		body, ctype = c03MultipartBody(parts)
+		body, ctype = c03MultipartBodyAs(parts, wire.enc%2 == 1)
 	case "truncated":
 		body, ctype = c03MultipartBody(parts)
 		cut := 3 + len(body)%7 // at least the closing "--\r\n" minus one byte is lost
@@ -272,29 +305,38 @@ func c03ExecFile(in []string) []string {
 		}
 		body = body[:len(body)-cut]
 	case "urlencoded":
-		var sb strings.Builder
-		for i, p := range parts {
-			if i > 0 {
-				sb.WriteByte('&')
-			}
-			sb.WriteString(url.QueryEscape(p.name) + "=" + url.QueryEscape(p.content))
+		var pairs [][2]string
+		for _, p := range parts {
+			pairs = append(pairs, [2]string{p.name, p.content})
 		}
-		body, ctype = []byte(sb.String()), "application/x-www-form-urlencoded"
+		body, ctype = []byte(c03Encode(pairs, wire.enc)), "application/x-www-form-urlencoded"
 	case "json":
 		body, ctype = []byte("{}"), "application/json"
 	case "nobody":
 	default:
 		return []string{"INVALID"}
 	}
+	var made []*http.Request
+	defer func() {
+		for _, r := range made {
+			c03Cleanup(r)
+		}
+	}()
 	mk := func() *http.Request {
 		var rd io.Reader
 		if mode != "nobody" {
-			rd = bytes.NewReader(body)
+			rd = c03BodyReader(body, wire.chunked)
 		}
-		req := httptest.NewRequest("POST", "http://srv.test/op", rd)
+		req := httptest.NewRequest(b.method, "http://srv.test/op", rd)
 		if ctype != "" {
-			req.Header.Set("Content-Type", ctype)
+			req.Header.Set("Content-Type", c03ContentType(ctype, wire.ctype))
 		}
+		if mode == "multipart" || mode == "urlencoded" {
+			// a middleware in front may have parsed the form already; with a small memory limit the
+			// files of a multipart form then live in temporary files (*os.File), not in memory
+			c03Preparse(req, mode == "multipart", wire.preparse)
+		}
+		made = append(made, req)
 		return req
 	}
 	switch in[0] {
@@ -470,6 +512,10 @@ func c03BindStruct(b *c03Built, d *c03Decl, req *http.Request, rp middleware.Rou
 	}
 	if !data.IsValid() {
 		data = reflect.New(reflect.StructOf([]reflect.StructField{{Name: "F", Type: ft}}))
+		if c03Sum(target, fmode, req.URL.RequestURI())%2 == 1 {
+			// a struct that was used before: the field holds a value of an earlier request
+			c03Stale(data.Elem().Field(0))
+		}
 	}
 	binder := middleware.NewUntypedRequestBinder(map[string]spec.Parameter{key: b.param}, b.doc.Spec(), strfmt.Default)
 	if err := binder.Bind(req, rp, runtime.JSONConsumer(), data.Interface()); err != nil {
@@ -480,6 +526,31 @@ func c03BindStruct(b *c03Built, d *c03Decl, req *http.Request, rp middleware.Rou
 		return []string{"V", "unexported:" + fmt.Sprint(fv)}
 	}
 	return []string{"V", c03TypedValue(fv)}
+}
+
+// c03Stale leaves a non-zero value in a field of one of the plain kinds
+func c03Stale(v reflect.Value) {
+	if !v.CanSet() {
+		return
+	}
+	switch v.Kind() { //nolint:exhaustive
+	case reflect.Bool:
+		v.SetBool(true)
+	case reflect.Int, reflect.Int8, reflect.Int16, reflect.Int32, reflect.Int64:
+		v.SetInt(1)
+	case reflect.Uint, reflect.Uint8, reflect.Uint16, reflect.Uint32, reflect.Uint64:
+		v.SetUint(1)
+	case reflect.Float32, reflect.Float64:
+		v.SetFloat(1.5)
+	case reflect.String:
+		v.SetString("stale")
+	case reflect.Ptr:
+		v.Set(reflect.New(v.Type().Elem()))
+		c03Stale(v.Elem())
+	case reflect.Slice:
+		v.Set(reflect.MakeSlice(v.Type(), 2, 2))
+		c03Stale(v.Index(0))
+	}
 }
 
 // ---------------------------------------------------------------------------------------------
